@@ -182,8 +182,8 @@ impl Variant {
                 let float_value = self.string_value.parse::<f64>();
                 match float_value {
                     Ok(f) => f,
-                    _ => match parse_filesize(&self.string_value) {
-                        Some(size) => size as f64,
+                    _ => match crate::util::parse_filesize_exact(&self.string_value) {
+                        Some((numerator, denominator)) => numerator as f64 / denominator as f64,
                         _ => 0.0,
                     },
                 }
